@@ -303,16 +303,31 @@ def verify_spec(spec, repo=None, crosscheck=True):
     if getattr(spec, "scenario", None):
         meta = dict(meta, scenario=spec.scenario)
     rep = FunctionReport(spec, meta)
-    try:
-        pv, ex, sym = _run_once(spec, fn_node, "proof", {})
-    except Exception as e:  # engine crash = checker error, never a verdict
-        rep.errors.append("engine crash: " + "".join(traceback.format_exception_only(type(e), e)).strip() + " | " + traceback.format_exc()[-600:])
-        return rep
-    rep.raw = pv.obligations
-    rep.solver_seconds += pv.solver_seconds
-    rep.assumptions |= ex.assumptions
+    # enumerated case split (concrete strings / flags): one symbolic run per case, obligations merged by name
+    cases = list(spec.cases()) if hasattr(spec, "cases") else [None]
+    all_obl = []
+    sym = None
+    for case in cases:
+        if case is not None:
+            spec.case = case
+        try:
+            pv, ex, sym_ = _run_once(spec, fn_node, "proof", {})
+        except Exception as e:  # engine crash = checker error, never a verdict
+            rep.errors.append("engine crash: " + (f"case {case!r}: " if case is not None else "") + "".join(traceback.format_exception_only(type(e), e)).strip() + " | " + traceback.format_exc()[-600:])
+            return rep
+        rep.solver_seconds += pv.solver_seconds
+        rep.assumptions |= ex.assumptions
+        for o in pv.obligations:
+            o.case = case
+            o.symtab = sym_
+            if o.status != "discharged" and case is not None:
+                o.detail = f"case {case!r}: " + (o.detail or "")
+        all_obl.extend(pv.obligations)
+    if len(cases) > 1 or cases[0] is not None:
+        rep.meta = dict(rep.meta, cases=len(cases))
+    rep.raw = all_obl
     agg = {}
-    for o in pv.obligations:
+    for o in all_obl:
         a = agg.setdefault(_agg_name(o.name), {"name": _agg_name(o.name), "instances": 0, "status": "discharged", "backends": set(), "seconds": 0.0, "detail": ""})
         a["instances"] += 1
         a["backends"].add(o.backend)
@@ -322,7 +337,8 @@ def verify_spec(spec, repo=None, crosscheck=True):
             a["status"] = o.status
             a["detail"] = o.detail
         if o.status == "refuted" and o.model is not None and "model" not in a:
-            a["model"] = (o.model, {}, sym)
+            a["model"] = (o.model, {}, o.symtab)
+            a["case"] = o.case
     open_names = [a["name"] for a in agg.values() if a["status"] != "discharged"]
     # ---- refutation mode for whatever proof mode left open
     if open_names and spec.sizes and not any(a["status"] == "unsupported" and a["name"].endswith("#subset") for a in agg.values()):
@@ -348,6 +364,8 @@ def verify_spec(spec, repo=None, crosscheck=True):
             ref = {"obligation": a["name"], "confirmed": False, "inputs": None, "detail": a["detail"]}
             if "model" in a:
                 model, sz, symt = a["model"]
+                if a.get("case") is not None:
+                    spec.case = a["case"]
                 try:
                     inputs = spec.inputs_from_model(model, sz, symt)
                 except Exception as e:
@@ -361,6 +379,7 @@ def verify_spec(spec, repo=None, crosscheck=True):
                     ref["observed"] = why
             rep.refutations.append(ref)
         a.pop("model", None)
+        a.pop("case", None)
         a["backends"] = sorted(a["backends"])
     rep.obligations = list(agg.values())
     # ---- CPython cross-check of contract and engine
